@@ -327,62 +327,92 @@ def count_vector(db, fn, e, depth):
 
 # ------------------------------------------------------------------ eligibility predicate
 def eligible_pred(db, f, results_rx, local_rx, capture_of=None):
-    """`f` (fn or closure returning bool) is true only if results.get(n) is None and n != local.  Returns the index of
-    the node parameter, or None.  results_rx / local_rx recognise the two operands (after capture substitution)."""
+    """`f` (fn or closure returning bool) is true only if results.get(n) is None and n != local.
+    Returns ('ok', index of the node parameter) | ('bad', why) | ('unknown', why).
+    Every path is a row (literals on H = "n has a result", L = "n is the local node", returned literal/constant);
+    the row is checked under all valuations of (H, L) it admits."""
     ss = pathsum.summaries(db, f)
     if not ss:
-        return None
+        return ("unknown", "no path summary")
 
     def sub(s):
         return capture_of(s) if capture_of else s
-    node = set()
-    for p, facts, ret in ss:
-        cv = pathsum.const_value(ret) if ret is not None else None
-        if cv == 0:
-            continue
-        has_none = None
-        for fa in facts:
-            if fa[0] == "variant" and fa[3] == "None" and fa[4]:
-                e = peel(fa[1])
-                if e[0] == "call" and (e[1].get("n") or "").endswith("FetchResults::get") and re.search(results_rx, sub(nshow(e[2][0]))):
-                    has_none = nshow(peel(e[2][1]))
-            if fa[0] == "bool" and fa[2] is False:
-                e = peel(fa[1])
-                if e[0] == "call" and (e[1].get("n") or "").endswith("FetchResults::contains") and re.search(results_rx, sub(nshow(e[2][0]))):
-                    has_none = nshow(peel(e[2][1]))
-        if has_none is None:
-            return None
-        ne = None
-        r = peel(ret) if ret is not None else None
-        if r is not None and r[0] == "call" and re.search(r"PartialEq::ne$", r[1].get("dn") or r[1].get("n") or "") and len(r[2]) == 2:
-            a, b = nshow(peel(r[2][0])), nshow(peel(r[2][1]))
-            if re.search(local_rx, sub(a)):
-                ne = b
-            elif re.search(local_rx, sub(b)):
-                ne = a
-        elif r is not None and r[0] == "un" and r[1] == "Not":
-            q = peel(r[2])
-            if q[0] == "call" and re.search(r"PartialEq::eq$", q[1].get("dn") or q[1].get("n") or "") and len(q[2]) == 2:
-                a, b = nshow(peel(q[2][0])), nshow(peel(q[2][1]))
-                if re.search(local_rx, sub(a)):
-                    ne = b
-                elif re.search(local_rx, sub(b)):
-                    ne = a
-        elif cv == 1:
-            for fa in facts:
-                if fa[0] == "cmp" and fa[1] == "Ne":
-                    a, b = nshow(peel(fa[2])), nshow(peel(fa[3]))
-                    if re.search(local_rx, sub(a)):
-                        ne = b
-                    elif re.search(local_rx, sub(b)):
-                        ne = a
-        if ne is None or ne != has_none:
-            return None
-        node.add(ne)
-    if len(node) != 1:
+    nodes = set()
+
+    def atom(e):
+        """('H'|'L', polarity, node) for a boolean expression, ('const', b), or None."""
+        e = peel(e)
+        cv = pathsum.const_value(e)
+        if cv is not None:
+            return ("const", bool(cv))
+        if e[0] == "un" and e[1] == "Not":
+            x = atom(e[2])
+            if x is None:
+                return None
+            if x[0] == "const":
+                return ("const", not x[1])
+            return (x[0], not x[1], x[2])
+        if e[0] == "call":
+            nm = e[1].get("dn") or e[1].get("n") or ""
+            nm2 = e[1].get("n") or ""
+            if re.search(r"PartialEq::(ne|eq)$", nm) and len(e[2]) == 2:
+                a_, b_ = nshow(peel(e[2][0])), nshow(peel(e[2][1]))
+                other = b_ if re.search(local_rx, sub(a_)) else (a_ if re.search(local_rx, sub(b_)) else None)
+                if other is None:
+                    return None
+                return ("L", nm.endswith("eq"), other)
+            if re.search(r"Option::(is_none|is_some)$", nm2) and len(e[2]) == 1:
+                g_ = peel(e[2][0])
+                if g_[0] == "call" and (g_[1].get("n") or "").endswith("FetchResults::get") and re.search(results_rx, sub(nshow(g_[2][0]))):
+                    return ("H", nm2.endswith("is_some"), nshow(peel(g_[2][1])))
+                return None
+            if nm2.endswith("FetchResults::contains") and len(e[2]) == 2 and re.search(results_rx, sub(nshow(e[2][0]))):
+                return ("H", True, nshow(peel(e[2][1])))
         return None
-    mt = re.match(r"^arg(\d+)$", node.pop())
-    return int(mt.group(1)) if mt else None
+
+    def fact_atom(fa):
+        if fa[0] == "variant" and fa[3] in ("None", "Some"):
+            e = peel(fa[1])
+            if e[0] == "call" and (e[1].get("n") or "").endswith("FetchResults::get") and re.search(results_rx, sub(nshow(e[2][0]))):
+                return ("H", (fa[3] == "Some") == bool(fa[4]), nshow(peel(e[2][1])))
+            return None
+        if fa[0] == "bool":
+            x = atom(fa[1])
+            if x is None or x[0] == "const":
+                return None
+            return (x[0], x[1] == fa[2], x[2])
+        if fa[0] == "cmp" and fa[1] in ("Eq", "Ne"):
+            a_, b_ = nshow(peel(fa[2])), nshow(peel(fa[3]))
+            other = b_ if re.search(local_rx, sub(a_)) else (a_ if re.search(local_rx, sub(b_)) else None)
+            if other is None:
+                return None
+            return ("L", fa[1] == "Eq", other)
+        return None
+    for p, facts, ret in ss:
+        lits = {}
+        for fa in facts:
+            x = fact_atom(fa)
+            if x is not None:
+                nodes.add(x[2])
+                lits[x[0]] = x[1]
+        r = atom(ret) if ret is not None else None
+        if r is None:
+            return ("unknown", "result %s not interpreted" % (nshow(ret)[:100] if ret is not None else None))
+        if r[0] != "const":
+            nodes.add(r[2])
+        for H, L in itertools.product((False, True), repeat=2):
+            v = {"H": H, "L": L}
+            if any(v[k] != pol for k, pol in lits.items()):
+                continue
+            val = r[1] if r[0] == "const" else (v[r[0]] == r[1])
+            if val and (H or L):
+                return ("bad", "true although the node %s" % ("already has a result" if H else "is the local node"))
+    if len(nodes) != 1:
+        return ("unknown", "tests refer to %d different nodes" % len(nodes))
+    mt = re.match(r"^arg(\d+)$", nodes.pop())
+    if not mt:
+        return ("unknown", "node operand is not a parameter")
+    return ("ok", int(mt.group(1)))
 
 
 def run(ctx):
@@ -618,18 +648,27 @@ def report(ctx, m):
                 rows.append(("some", cl))
                 continue
             if side is None:
-                und.append(nshow(ret)[:120] if ret else "no result")
+                # the decision is taken on something *derived* from is_target_reached() (filter / and_then / ..): then
+                # neither side of it pins the target predicate, and the report no longer follows it
+                derived = [f for f in facts if f[0] in ("variant", "bool") and "::is_target_reached(arg1)" in nshow(f[1])]
+                if derived and (result_class(db, ret) & {"success", "failure", "break", "continue"}):
+                    rows.append(("derived:%s" % nshow(derived[0][1])[:80], result_class(db, ret)))
+                else:
+                    und.append(nshow(ret)[:120] if ret else "no result")
                 continue
             rows.append((side, result_class(db, ret)))
         want_some = {"success"} if n != "finished" else {"success", "break"}
         want_none = {"failure"} if n != "finished" else {"continue"}
         bad = []
         for side, cl in rows:
+            if side.startswith("derived:"):
+                bad.append("it builds %s depending on %s, which does not determine whether the target is reached" % (sorted(cl), side[8:]))
+                continue
             if side == "some" and not (want_some <= cl and not (cl & {"failure", "continue"})):
                 bad.append("on the target-reached side it builds %s" % sorted(cl))
             if side == "none" and not (want_none <= cl and not (cl & {"success", "break"})):
                 bad.append("on the target-missed side it builds %s" % sorted(cl))
-        sides = set(s for s, _ in rows)
+        sides = set(s for s, _ in rows if not s.startswith("derived:"))
         if bad:
             ctx.violated("%s:report:%s" % (m.name, n), "%s does not report success exactly when is_target_reached() is Some: %s" % (n, "; ".join(bad[:2])), rules.where(fn), fn=fn)
         elif und or sides != {"some", "none"}:
@@ -719,9 +758,14 @@ def record_fetcher(ctx, m):
         ctx.violated("fetcher:anchor:results", "the fetcher's FetchResults field was not found")
         return
     inc = m.fn("include_node")
-    pred_arg = eligible_pred(db, inc, r"^arg1\.%s$" % re.escape(resf[0]), r"^arg1\.%s$" % re.escape(m.local)) if inc is not None else None
-    if inc is not None:
-        ctx.check("fetcher:eligible:include_node", pred_arg == 2, "include_node(n) holds only if n has no result yet and is not the local node", rules.where(inc), fn=inc)
+    pr = eligible_pred(db, inc, r"^arg1\.%s$" % re.escape(resf[0]), r"^arg1\.%s$" % re.escape(m.local)) if inc is not None else ("unknown", "include_node not found")
+    pred_arg = pr[1] if pr[0] == "ok" else None
+    if pr[0] == "ok" and pr[1] == 2:
+        ctx.held("fetcher:eligible:include_node", "include_node(n) holds only if n has no result yet and is not the local node", rules.where(inc), fn=inc)
+    elif pr[0] == "bad":
+        ctx.violated("fetcher:eligible:include_node", "include_node(n) can be %s" % pr[1], rules.where(inc), fn=inc)
+    else:
+        ctx.ob("fetcher:eligible:include_node", "inconclusive", "include_node: %s" % (pr[1],), rules.where(inc) if inc else "", fn=inc)
     sites = []
     for fn in db.find(F):
         for bb, callee in rules.field_mut_calls(fn, resf[0], r"fetch::Fetcher"):
@@ -739,7 +783,28 @@ def record_fetcher(ctx, m):
                     return nshow(peel_calls(e[2][1])) == node and nshow(peel_calls(e[2][0])) == "arg1"
             return False
         ok, al, bad = rules.dom_check(db, fn, [bb], guarded)
-        ctx.check("fetcher:record:%s" % cfg.short(db.root_of(fn)["key"]), bool(ok and al),
+        held = bool(ok and al)
+        if not held:
+            # the two halves of the test written in line
+            def no_result(f):
+                if f[0] == "variant" and f[3] in ("None", "Some") and ((f[3] == "None") == bool(f[4])):
+                    e = peel(f[1])
+                    return e[0] == "call" and (e[1].get("n") or "").endswith("FetchResults::get") and nshow(peel_calls(e[2][0])) == "arg1.%s" % resf[0] \
+                        and nshow(peel_calls(e[2][1])) == node
+                if f[0] == "bool" and f[2] is False:
+                    e = peel(f[1])
+                    return e[0] == "call" and (e[1].get("n") or "").endswith("FetchResults::contains") and nshow(peel_calls(e[2][1])) == node
+                return False
+
+            def not_local(f):
+                if f[0] == "cmp" and f[1] == "Ne":
+                    a_, b_ = nshow(peel(f[2])), nshow(peel(f[3]))
+                    return {a_, b_} == {node, "arg1.%s" % m.local}
+                return False
+            ok1, al1, bad1 = rules.dom_check(db, fn, [bb], no_result)
+            ok2, al2, bad2 = rules.dom_check(db, fn, [bb], not_local)
+            held = bool(ok1 and al1 and ok2 and al2)
+        ctx.check("fetcher:record:%s" % cfg.short(db.root_of(fn)["key"]), held,
                   "a fetch result is recorded only for a node that has no result yet and is not the local node "
                   "(otherwise the local node, or one node twice, is counted towards the target)",
                   rules.where(fn, bb), detail={"path": list(bad.values())[:1]}, fn=fn)
@@ -752,7 +817,7 @@ def handout(ctx, m):
         return
     R, L = re.escape(resf[0]), re.escape(m.local)
     inc = m.fn("include_node")
-    inc_ok = inc is not None and eligible_pred(db, inc, r"^arg1\.%s$" % R, r"^arg1\.%s$" % L) == 2
+    inc_ok = inc is not None and eligible_pred(db, inc, r"^arg1\.%s$" % R, r"^arg1\.%s$" % L) == ("ok", 2)
     for n in ("next_node", "next_fetch"):
         fn = m.fn(n)
         if fn is None:
@@ -782,16 +847,18 @@ def pred_call_ok(db, fn, call, caps, R, L, inc_ok, node_expr):
     """`call` is an application of an eligibility predicate to node_expr."""
     call = peel(call)
     if call[0] != "call":
-        return False
+        return None
     nm = call[1].get("n") or ""
     if nm.endswith("Fetcher::include_node") and len(call[2]) == 2:
-        return inc_ok and nshow(peel_calls(call[2][1])) == node_expr
+        if not inc_ok:
+            return None        # include_node itself is reported by its own obligation
+        return nshow(peel_calls(call[2][1])) == node_expr
     # a local closure: callee is the closure body, args = (env, (n,))
     mt = re.search(r"\{closure#\d+\}$", nm)
     if mt and len(call[2]) == 2:
         cf = db.one("^" + re.escape(nm) + "$")
         if cf is None:
-            return False
+            return None
         env = peel(call[2][0])
         # env is a capture of the enclosing closure: arg1.<i> -> caps[i] -> itself a closure aggregate with its own captures
         src = None
@@ -800,17 +867,41 @@ def pred_call_ok(db, fn, call, caps, R, L, inc_ok, node_expr):
         elif env[0] == "agg":
             src = env
         if src is None or src[0] != "agg":
-            return False
+            return None
         inner_caps = [nshow(peel_calls(x)) for x in src[2]]
 
         def capture_of(s):
             return re.sub(r"^arg1\.(\d+)$", lambda mm: inner_caps[int(mm.group(1))] if int(mm.group(1)) < len(inner_caps) else s, s)
         k = eligible_pred(db, cf, r"^arg1\.%s$" % R, r"^arg1\.%s$" % L, capture_of)
-        if k != 2:
+        if k[0] == "unknown":
+            return None
+        if k != ("ok", 2):
             return False
         a = peel(call[2][1])
         if a[0] == "agg" and a[2]:
             return nshow(peel_calls(a[2][0])) == node_expr
+    return None
+
+
+def mentions_test(db, fn, e, depth=0):
+    """Does expression e (including the bodies of closures it builds) apply any has-result / local-node test?"""
+    if e is None or depth > 3:
+        return False
+    for x in walk(e):
+        if x[0] == "call":
+            nm = x[1].get("n") or ""
+            if re.search(r"Fetcher::include_node$|FetchResults::(get|contains)$", nm):
+                return True
+            if re.search(r"\{closure#\d+\}$", nm):
+                cf = db.one("^" + re.escape(nm) + "$")
+                if cf is not None and any(mentions_test(db, cf, r2, depth + 1) or any(mentions_test(db, cf, f[1], depth + 1) for f in f2 if f[0] in ("bool", "variant"))
+                                          for p, f2, r2 in pathsum.summaries(db, cf, 64) or []):
+                    return True
+        if x[0] == "agg" and isinstance(x[1], dict) and x[1].get("closure"):
+            for cf in flow.closure_family(db, fn, x[1]["closure"]):
+                for p, f2, r2 in pathsum.summaries(db, cf, 64) or []:
+                    if mentions_test(db, cf, r2, depth + 1) or any(mentions_test(db, cf, f[1], depth + 1) for f in f2 if f[0] in ("bool", "variant")):
+                        return True
     return False
 
 
@@ -840,8 +931,15 @@ def handout_expr(db, fn, ret, facts, R, L, inc_ok):
                 node = None
                 if capsub[0] == "call" and len(capsub[2]) == 2:
                     node = nshow(peel_calls(capsub[2][1]))
-                oks.append(node is not None and re.match(r"^arg2(\.\w+)?$", node) is not None and pred_call_ok(db, cf, capsub, caps, R, L, inc_ok, node))
-            return bool(oks) and all(oks)
+                if node is None or re.match(r"^arg2(\.\w+)?$", node) is None:
+                    oks.append(None)
+                else:
+                    oks.append(pred_call_ok(db, cf, capsub, caps, R, L, inc_ok, node))
+            if any(o is False for o in oks):
+                return False
+            if any(o is None for o in oks) or not oks:
+                return None if mentions_test(db, fn, r) else False
+            return True
         if re.search(r"Iterator::find_map$", nm) and len(r[2]) == 2:
             cf, caps = closure_of(db, fn, r[2][1])
             if cf is None:
@@ -857,20 +955,21 @@ def handout_expr(db, fn, ret, facts, R, L, inc_ok):
                     node = nshow(peel_calls(x[2][1]))
                     oks.append(pred_call_ok(db, cf, x[2][0], caps, R, L, inc_ok, node))
                     continue
-                oks.append(False if (an and an.endswith("Option::Some")) else None)
-            if any(o is None for o in oks):
-                return None
-            return bool(oks) and all(oks)
-        if re.search(r"Iterator::find$", nm) and len(r[2]) == 2:
-            return None
+                oks.append(None)
+            if any(o is False for o in oks):
+                return False
+            if any(o is None for o in oks) or not oks:
+                return None if mentions_test(db, fn, r) else False
+            return True
     if a and a.endswith("Option::Some"):
         # direct form: Some(n) behind literals on the path
         node = nshow(peel_calls(r[2][0])) if r[2] else None
         for f in facts:
             if f[0] == "bool" and f[2] is True and pred_call_ok(db, fn, f[1], None, R, L, inc_ok, node):
                 return True
-        return False
-    return None
+    # not a recognised selection: unguarded if no test is applied anywhere, otherwise not understood
+    tested = mentions_test(db, fn, r) or any(mentions_test(db, fn, f[1]) for f in facts if f[0] in ("bool", "variant"))
+    return None if tested else False
 
 
 def substitute_caps(call, caps):
